@@ -34,3 +34,27 @@ Theorem C19_compose kern k2 s (f : vecR -> vecR) X1 X2 :
 Proof. split; [exact (transforms_compose _ _ _ _ _)|exact (transforms_compose_algebra _ _ _ _ _)]. Qed.
 Print Assumptions C19_linear.
 Print Assumptions C19_linear_is_lengthscale.
+
+(* ---- any dimension: the Cholesky transform gives the Mahalanobis form (pure linear algebra, any field) ----
+   With z_i = L^-1 x_i (what solve_triangular returns for an invertible factor L), the squared distance fed to the base
+   kernel is (x1 - x2)^T (L L^T)^-1 (x1 - x2); so an exponential-squared base kernel gives exp(-(x-x')^T (L L^T)^-1 (x-x') / 2),
+   and the Cholesky form with L equals the Linear form with the matrix L^-1. *)
+From mathcomp Require Import all_ssreflect all_algebra.
+Import GRing.Theory.
+Local Open Scope ring_scope.
+Theorem C19_mahalanobis (F : fieldType) d (L : 'M[F]_d) (x1 x2 : 'cV[F]_d) : L \in unitmx ->
+  let z1 := invmx L *m x1 in let z2 := invmx L *m x2 in
+  ((z1 - z2)^T *m (z1 - z2) = (x1 - x2)^T *m invmx (L *m L^T) *m (x1 - x2))%R.
+Proof.
+move=> Lu z1 z2.
+have Ltu : L^T \in unitmx by rewrite unitmx_tr.
+have U : L *m L^T \in unitmx by rewrite unitmx_mul Lu Ltu.
+have H : invmx (L *m L^T) = invmx (L^T) *m invmx L.
+  rewrite -[LHS]mulmx1 -(mulmxV Lu) -[L in X in _ *m (X *m _)]mulmx1 -(mulmxV Ltu) !mulmxA.
+  by rewrite -[invmx (L *m L^T) *m L *m L^T]mulmxA mulVmx // mul1mx.
+by rewrite /z1 /z2 -mulmxBr trmx_mul H trmx_inv !mulmxA.
+Qed.
+Theorem C19_cholesky_is_linear_with_inverse (F : fieldType) d (L : 'M[F]_d) (x : 'cV[F]_d) (z : 'cV[F]_d) : L \in unitmx ->
+  (L *m z = x -> z = invmx L *m x)%R.
+Proof. by move=> Lu <-; rewrite mulKmx. Qed.
+Print Assumptions C19_mahalanobis.
